@@ -3,6 +3,7 @@ package processor
 import (
 	"context"
 	"encoding/json"
+	"fmt"
 	"math"
 	"net/http"
 	"strconv"
@@ -142,6 +143,16 @@ func (p *Processor) ChargingDataCreate(
 	self := chf_context.GetSelf()
 	ueId := chargingData.SubscriberIdentifier
 
+	if err := validateChargingDataCreate(chargingData); err != nil {
+		logger.ChargingdataPostLog.Errorf("Invalid charging data request: %s", err)
+		problemDetails := &models.ProblemDetails{
+			Status: http.StatusBadRequest,
+			Cause:  "MANDATORY_IE_MISSING",
+			Detail: err.Error(),
+		}
+		return nil, "", problemDetails
+	}
+
 	// Open CDR
 	// ChargingDataRef(charging session id):
 	// A unique identifier for a charging data resource in a PLMN
@@ -156,6 +167,8 @@ func (p *Processor) ChargingDataCreate(
 	}
 
 	ue.CULock.Lock()
+	// released on every return path, including a panic recovered by the HTTP layer
+	defer ue.CULock.Unlock()
 	ue.NotifyUri = chargingData.NotifyUri
 
 	consumerId := chargingData.NfConsumerIdentification.NFName
@@ -166,8 +179,6 @@ func (p *Processor) ChargingDataCreate(
 	}
 	cdr, err := p.OpenCDR(chargingData, ue, chargingSessionId, false)
 	if err != nil {
-		// Lock in line 158
-		ue.CULock.Unlock()
 		problemDetails := &models.ProblemDetails{
 			Status: http.StatusBadRequest,
 		}
@@ -176,8 +187,6 @@ func (p *Processor) ChargingDataCreate(
 
 	err = p.UpdateCDR(cdr, chargingData)
 	if err != nil {
-		// Lock in line 158
-		ue.CULock.Unlock()
 		problemDetails := &models.ProblemDetails{
 			Status: http.StatusBadRequest,
 		}
@@ -186,7 +195,6 @@ func (p *Processor) ChargingDataCreate(
 
 	ue.Cdr[chargingSessionId] = cdr
 	ue.Records = append(ue.Records, ue.Cdr[chargingSessionId])
-	ue.CULock.Unlock()
 
 	if chargingData.OneTimeEvent {
 		err = p.CloseCDR(cdr, false)
@@ -215,6 +223,28 @@ func (p *Processor) ChargingDataCreate(
 	responseBody.InvocationSequenceNumber = chargingData.InvocationSequenceNumber
 
 	return &responseBody, locationURI, nil
+}
+
+// validateChargingDataCreate checks the members of an initial request that the CDR is built from
+// unconditionally (TS 32.291: mandatory members of the respective structures).
+func validateChargingDataCreate(chargingData models.ChfConvergedChargingChargingDataRequest) error {
+	nfId := chargingData.NfConsumerIdentification
+	if nfId == nil {
+		return fmt.Errorf("nfConsumerIdentification is missing")
+	}
+	if plmnId := nfId.NFPLMNID; plmnId != nil {
+		if len(plmnId.Mcc) != 3 || (len(plmnId.Mnc) != 2 && len(plmnId.Mnc) != 3) {
+			return fmt.Errorf("nFPLMNID is malformed")
+		}
+	}
+	if pduInfo := chargingData.PDUSessionChargingInformation; pduInfo != nil {
+		if pduInfo.PduSessionInformation == nil ||
+			pduInfo.PduSessionInformation.NetworkSlicingInfo == nil ||
+			pduInfo.PduSessionInformation.NetworkSlicingInfo.SNSSAI == nil {
+			return fmt.Errorf("pDUSessionChargingInformation lacks pduSessionInformation/networkSlicingInfo/sNSSAI")
+		}
+	}
+	return nil
 }
 
 func (p *Processor) ChargingDataUpdate(
@@ -601,8 +631,14 @@ func sessionChargingReservation(
 
 			ue.UnitCost[rg] = getUnitCost(ue, rg, sur)
 
+			// requestedUnit is optional: without it no new quota is asked for
+			var requestedVolume uint32
+			if unitUsage.RequestedUnit != nil {
+				requestedVolume = uint32(unitUsage.RequestedUnit.TotalVolume)
+			}
+
 			usedQuota := uint64(totalUsedUnit * ue.UnitCost[rg])
-			requestedQuota = uint64(uint32(unitUsage.RequestedUnit.TotalVolume) * ue.UnitCost[rg])
+			requestedQuota = uint64(requestedVolume * ue.UnitCost[rg])
 			ue.ReservedQuota[rg] -= int64(usedQuota)
 			// keep the reservation topped up to the requested quota, so that every unit
 			// granted below is backed by money already taken from the account
@@ -664,7 +700,7 @@ func sessionChargingReservation(
 
 			ue.UnitCost[rg] = getUnitCost(ue, rg, sur)
 
-			grantedUnit := min(uint32(serviceUsageRsp.ServiceRating.AllowedUnits), uint32(unitUsage.RequestedUnit.TotalVolume))
+			grantedUnit := min(uint32(serviceUsageRsp.ServiceRating.AllowedUnits), requestedVolume)
 
 			if ue.RatingType[rg] == charging_datatype.REQ_SUBTYPE_RESERVE {
 				unitInformation.Triggers = append(unitInformation.Triggers,
